@@ -514,8 +514,10 @@ func (d *Driver) Step(snap dht.VerifTableSnapshot) Event {
 	switch k := r.Intn(100); {
 	case k < 30:
 		return d.InboundQuery(d.contact(), r.Intn(8) == 0)
-	case k < 55:
+	case k < 52:
 		return d.OutboundAnswered(d.contact(), r.Intn(8) == 0)
+	case k < 55:
+		return d.OutboundAnsweredAfterCancel(d.contact())
 	case k < 62:
 		return d.OutboundMismatched(d.contact())
 	case k < 68:
@@ -813,3 +815,65 @@ var _ = simnet.Now
 
 // SetQueryDelay changes what the server's QueryResendDelay returns from now on.
 func (d *Driver) SetQueryDelay(x time.Duration) { d.delay.Store(int64(x)) }
+
+
+// OutboundAnsweredAfterCancel: our query to c is cancelled while its datagram is still inside the
+// socket write; c's matching reply arrives before the query has deregistered. The reply matches a
+// pending transaction, so c did answer one of our queries.
+func (d *Driver) OutboundAnsweredAfterCancel(c Contact) Event {
+	ev := Event{Kind: "response-after-cancel", Desc: fmt.Sprintf("our query to %v cancelled mid-write, then answered by id=%x while still registered", c.UDP, c.ID[:3])}
+	if d.blocked(c.UDP.IP) {
+		ev.Kind = "noop"
+		d.log(&ev)
+		return ev
+	}
+	reached := make(chan string, 1)
+	release := make(chan struct{})
+	d.N.Conn.SetHook(func(dg simnet.Datagram) error {
+		if dg.To.String() == c.UDP.String() {
+			t := ""
+			if m, err := benc.DecodeDict(dg.B); err == nil {
+				t, _ = benc.Str(m, "t")
+			}
+			select {
+			case reached <- t:
+				<-release
+			default:
+			}
+		}
+		return nil
+	})
+	defer d.N.Conn.SetHook(nil)
+	ctx, cancel := context.WithCancel(context.Background())
+	done := make(chan dht.QueryResult, 1)
+	go func() {
+		done <- d.N.S.Query(ctx, dht.NewAddr(c.UDP), "ping", dht.QueryInput{})
+	}()
+	var t string
+	select {
+	case t = <-reached:
+	case <-time.After(20 * time.Second):
+		cancel()
+		close(release)
+		<-done
+		d.Err = fmt.Errorf("query to %v never reached the socket", c.UDP)
+		return ev
+	}
+	cancel()
+	// Give Query the chance to leave its select on the cancelled context; it then waits for the
+	// sender, which sits in the write. Whether it has or has not is immaterial to what must follow.
+	time.Sleep(200 * time.Microsecond)
+	p := c.Pair()
+	ev.Sender, ev.J, ev.Eligible, ev.MatchedResponse = &p, []Pair{p}, d.eligible(c, false), true
+	d.log(&ev)
+	d.N.Conn.Inject(benc.Encode(benc.Dict{"y": "r", "t": t, "r": benc.Dict{"id": c.ID}}), c.UDP)
+	deadline := time.Now().Add(20 * time.Second)
+	for !d.N.Conn.Drained0() && time.Now().Before(deadline) {
+		time.Sleep(20 * time.Microsecond)
+	}
+	close(release)
+	<-done
+	d.Answered[p] = true
+	d.quiesce()
+	return ev
+}
